@@ -322,14 +322,14 @@ FUZZ = {"equivariance": ("equivariance", equiv_cases), "sets": ("sets", set_case
 
 def run(acc, tier):
     if tier == "quick":
-        engine.pmap(acc, shard_perms, extra=(7,))
+        engine.pmap(acc, shard_perms, extra=(8,))
         engine.pmap(acc, shard_mesh_small, extra=(1,))
         engine.pmap(acc, shard_generated, extra=(400, 800, 150))
-        sub = "all permutations of length <= 7; all mesh patterns of length <= 1"
+        sub = "all permutations of length <= 8; all mesh patterns of length <= 1"
     else:
-        engine.pmap(acc, shard_perms, extra=(8,))
+        engine.pmap(acc, shard_perms, extra=(9,))
         engine.pmap(acc, shard_mesh_small, extra=(2,))
         engine.pmap(acc, shard_generated, extra=(15000, 30000, 5000))
         engine.fuzz(acc, "hyp:equivariance", CHECKS, 20000, max_len=2048)
-        sub = "all permutations of length <= 8; all mesh patterns of length <= 2"
+        sub = "all permutations of length <= 9; all mesh patterns of length <= 2"
     META["extra_cov"] = {"exhaustive_subdomain": sub}
